@@ -123,3 +123,58 @@ pub fn case(k: usize) {
         _ => g(-2i16, "feff", "i16 -2"),
     }
 }
+
+// ---- nalgebra types (feature "nalgebra" of savefile): bitwise round trip, and bulk containers == element-wise -------
+#[derive(savefile_derive::Savefile, Clone, Debug, PartialEq)]
+#[repr(C)]
+pub struct Stamped {
+    pub pose: nalgebra::Isometry3<f64>,
+    pub stamp: f64,
+}
+fn bits_iso(a: &nalgebra::Isometry3<f64>) -> Vec<u64> {
+    let mut v: Vec<u64> = a.translation.vector.iter().map(|x| x.to_bits()).collect();
+    v.extend(a.rotation.quaternion().coords.iter().map(|x| x.to_bits()));
+    v
+}
+pub fn nalgebra_types<S: Src>(s: &mut S) {
+    use nalgebra::{Isometry3, Point3, Translation3, UnitQuaternion, Vector3};
+    fn ser<X: Serialize>(x: &X) -> Vec<u8> { let mut o = Vec::new(); assert!(Serializer::bare_serialize(&mut o, 0, x).is_ok()); o }
+    fn de<X: Deserialize>(b: &[u8]) -> X { let mut rd: &[u8] = b; match Deserializer::bare_deserialize::<X>(&mut rd, 0) { Ok(x) => { assert!(rd.is_empty(), "C01: exact consumption"); x } Err(e) => panic!("C01: must load: {:?}", e) } }
+    const ANGLES: [(f64, f64, f64); 5] = [(0.0, 1.0, 2.0), (-3.0, -1.5, 0.0), (0.1, 0.2, 0.3), (2.5, -0.7, 1.9), (3.0, 3.0, 3.0)];
+    let (r, p, y) = ANGLES[s.below(ANGLES.len())];
+    let t = [s.u8() as f64 * 0.5, -1.25, 1e-3];
+    let iso = Isometry3::from_parts(Translation3::new(t[0], t[1], t[2]), UnitQuaternion::from_euler_angles(r, p, y));
+    // single value: bitwise round trip (floats bit-for-bit)
+    let one = ser(&iso);
+    assert!(one.len() == 7 * 8, "C02: an Isometry3<f64> is seven f64");
+    let back: Isometry3<f64> = de(&one);
+    assert!(bits_iso(&back) == bits_iso(&iso), "C01: Isometry3 comes back bit-for-bit");
+    // containers: bytes == length ++ element-wise encodings, and load element-wise equal
+    let iso2 = Isometry3::from_parts(Translation3::new(9.0, 8.0, 7.0), UnitQuaternion::from_euler_angles(y, r, p));
+    let v = vec![iso, iso2];
+    let mut exp: Vec<u8> = 2u64.to_le_bytes().to_vec();
+    exp.extend_from_slice(&one);
+    exp.extend_from_slice(&ser(&iso2));
+    assert!(ser(&v) == exp, "C04: Vec<Isometry3<f64>> bytes == length ++ element-wise encodings (no bulk copy of a reordered layout)");
+    let vb: Vec<Isometry3<f64>> = de(&exp);
+    assert!(bits_iso(&vb[0]) == bits_iso(&iso) && bits_iso(&vb[1]) == bits_iso(&iso2), "C04: Vec<Isometry3<f64>> loads element-wise equal");
+    assert!(ser(&[iso, iso2]) == exp[8..], "C04: [Isometry3<f64>;2] bytes == element-wise encodings");
+    let st = Stamped { pose: iso, stamp: 2.5 };
+    let sb: Stamped = de(&ser(&st));
+    assert!(bits_iso(&sb.pose) == bits_iso(&iso) && sb.stamp == 2.5, "C01/C04: a repr(C) struct holding an Isometry3 round-trips");
+    let mut expst = one.clone();
+    expst.extend_from_slice(&2.5f64.to_le_bytes());
+    assert!(ser(&st) == expst, "C04: the struct's bytes are its fields' encodings in declaration order");
+    // Point3 / Vector3: three scalars in x, y, z order, alone and in a Vec
+    let pt = Point3::new(1.5f64, -2.0, t[0]);
+    let mut e3: Vec<u8> = Vec::new();
+    for c in [1.5f64, -2.0, t[0]] { e3.extend_from_slice(&c.to_le_bytes()); }
+    assert!(ser(&pt) == e3 && de::<Point3<f64>>(&e3) == pt, "C01/C02: Point3<f64>");
+    let vc = Vector3::new(1.0f32, 2.0, 3.0);
+    let mut e4: Vec<u8> = Vec::new();
+    for c in [1.0f32, 2.0, 3.0] { e4.extend_from_slice(&c.to_le_bytes()); }
+    assert!(ser(&vc) == e4 && de::<Vector3<f32>>(&e4) == vc, "C01/C02: Vector3<f32>");
+    let mut ev: Vec<u8> = 2u64.to_le_bytes().to_vec();
+    ev.extend_from_slice(&e3); ev.extend_from_slice(&e3);
+    assert!(ser(&vec![pt, pt]) == ev, "C04: Vec<Point3<f64>> bytes == length ++ element-wise encodings");
+}
